@@ -383,6 +383,73 @@ def false_edge(fn, call_or_local):
     return fn.edge_of(site, "true" if neg else "false")
 
 
+def implied_edges(fn, call):
+    """(edge on which `call` is known to have returned true, edge on which it is known to have returned false); either may be
+    None.  The call's own switch if it has one, else the switch on a flag that records the result as its last conjunct,
+    possibly negated: `let refused = sup.is_some() && !cell.try_link(..); if refused {..}` -- refused => try_link was false."""
+    te, fe = true_edge(fn, call), false_edge(fn, call)
+    if te or fe:
+        return te, fe
+    rl = call.dest[0]
+    for site, t, local, neg, ds in fn.flag_switches():
+        consts = set()
+        comp = []
+        for dsite, kind, st in ds:
+            if kind == "assign" and st["rv"]["k"] == "use" and st["rv"]["op"].get("k") == "const" and st["rv"]["op"].get("val") in ("true", "false"):
+                consts.add(st["rv"]["op"]["val"])
+            else:
+                comp.append((dsite, kind, st))
+        if len(comp) != 1 or len(consts) != 1:
+            continue
+        # does the computed definition carry the call's result (through copies and negations)?
+        dsite, kind, st = comp[0]
+        par = False
+        cur = None
+        if kind == "call":
+            if dsite.bb == call.bb:
+                cur = rl
+        else:
+            rv = st["rv"]
+            if rv["k"] == "use":
+                pl = op_place(rv["op"])
+                cur = pl[0] if pl is not None and not pl[1] else None
+            elif rv["k"] == "un" and rv["op"] == "Not":
+                pl = op_place(rv["a"])
+                cur = pl[0] if pl is not None and not pl[1] else None
+                par = True
+        hit = False
+        for _ in range(8):
+            if cur is None:
+                break
+            if cur == rl:
+                hit = True
+                break
+            dd = [d for d in fn.defs().get(cur, []) if d[1] in ("assign", "call")]
+            if len(dd) != 1 or dd[0][1] != "assign":
+                break
+            rv = dd[0][2]["rv"]
+            if rv["k"] == "use":
+                pl = op_place(rv["op"])
+                cur = pl[0] if pl is not None and not pl[1] else None
+            elif rv["k"] == "un" and rv["op"] == "Not":
+                pl = op_place(rv["a"])
+                cur = pl[0] if pl is not None and not pl[1] else None
+                par = not par
+            else:
+                break
+        if not hit:
+            continue
+        ft = fn.edge_of(site, "false" if neg else "true")       # flag == true
+        ff = fn.edge_of(site, "true" if neg else "false")
+        if consts == {"false"}:
+            # flag true => stored value true => call == (not par)
+            return (None, ft) if par else (ft, None)
+        else:
+            # the other definitions are `true`: flag false => stored value false => call == par
+            return (ff, None) if par else (None, ff)
+    return None, None
+
+
 def and_flag_edges(fn, call):
     """(true_edge, false_edge) of the decision that `call`'s bool result takes part in as the last conjunct:
     the call's own switch, or the switch on a flag all of whose definitions are `false` or the call's result
